@@ -1,1 +1,43 @@
-(* placeholder *)
+(* C12 — thread-local systems. Statements only; proofs in PlanProps.v / ExecPlan.v. *)
+From Shred Require Import Base SrcParams Plan PlanObs PlanLemmas PlanInv PlanLoc PlanBuild PlanProps Exec ExecProps ExecPlan.
+
+(* the thread-local list of the built dispatcher is exactly the thread-local registrations,
+   in registration order, whatever else is registered around them *)
+Theorem C12_thread_local_list_in_registration_order :
+  forall rs b, plan rs = Ok b -> b_tl b = tl_tags rs.
+Proof. exact plan_tl_order. Qed.
+Print Assumptions C12_thread_local_list_in_registration_order.
+
+(* In EVERY trace of a dispatch: the trace ends with the windows of the thread-local systems
+   and nothing else; every ordinary system has released before any thread-local system
+   fetches; thread-local systems run one at a time in registration order. *)
+Theorem C12_thread_locals_after_all_others_in_order :
+  forall rs b t,
+  plan rs = Ok b -> Forall reg_time_ok1 rs ->
+  traces_disp (layout_tags b) (b_tl b) t ->
+  (exists t1, t = t1 ++ group_trace (tl_tags rs) /\ forall e, In e t1 -> In (ev_tag e) (sys_tags rs)) /\
+  (forall s a, In s (sys_tags rs) -> In a (tl_tags rs) -> precedes (ER s) (EF a) t) /\
+  (forall a c l1 l2 l3, tl_tags rs = l1 ++ a :: l2 ++ c :: l3 -> precedes (ER a) (EF c) t).
+Proof. exact run_thread_locals_last. Qed.
+Print Assumptions C12_thread_locals_after_all_others_in_order.
+
+(* which thread: the staged part is handed to the pool, the thread-local part is executed by
+   the thread that called dispatch *)
+Theorem C12_thread_locals_on_the_calling_thread :
+  forall l tl t, traces_disp_thr l tl t ->
+  forall e th, In (e, th) t -> In (ev_tag e) tl -> ~ In (ev_tag e) (concat (concat l)) -> th = Caller.
+Proof. exact tl_on_caller. Qed.
+Print Assumptions C12_thread_locals_on_the_calling_thread.
+
+(* convertible to the sendable form exactly when there is no thread-local system; the
+   conversion hands over the same stages (it is the identity on the plan in the model:
+   Dispatcher { inner, thread_local = [] } -> inner) *)
+Theorem C12_sendable_iff_no_thread_locals :
+  forall rs b, plan rs = Ok b -> (sendable b = true <-> tl_tags rs = []).
+Proof. exact sendable_iff. Qed.
+Print Assumptions C12_sendable_iff_no_thread_locals.
+
+Example C12_example :
+  let rs := [RTL 7; RSys 1 [] [] [] [8] 3%Z; RBarrier; RTL 8; RSys 2 [] [] [8] [] 3%Z] in
+  exists b, plan rs = Ok b /\ layout_tags b = [[[1]]; [[2]]]%N /\ b_tl b = [7; 8]%N /\ sendable b = false.
+Proof. eexists. repeat split; vm_compute; reflexivity. Qed.
